@@ -222,7 +222,25 @@ def t_control_divmod(k):
     return {"prec": "f32", "cfg": True, "callees": [bump], "main": main}
 
 
-TEMPLATES = [t_window_on_alloc, t_config_fields, t_control_divmod, t_window_of_alloc, t_else_then_more, t_dependent_alloc, t_rmw_prefix, t_triangular_alloc, t_reduce_beyond, t_config_chain, t_maybe_zero_bound, t_masked_callee]
+def t_config_scalar(k):
+    """scalar and bool arguments next to config fields of the same type: bind_config candidates
+    whose field is read later / earlier / written by a callee"""
+    sett = {"name": "sett", "args": [_arg("v", "scalar")], "preds": [], "body": [["wcfg", "CfgB", "t", "v"]]}
+    first = [["wcfg", "CfgA", "s", "s"]] if k % 2 else []
+    body = first + [
+        ["for", "i", "0", "8", [["assign", "x", ["i"], "s * y[i]"]], "seq"],
+        ["if", "flag", [["assign", "x", ["0"], "s"]], [["assign", "x", ["1"], "r"]]],
+        ["call", "sett", ["r"]],
+        ["for", "i", "0", "8", [["reduce", "y", ["i"], "CfgA.s + CfgB.t"]], "seq"],
+        ["if", "CfgA.flag", [["assign", "y", ["2"], "r + s"]], []],
+    ]
+    if (k // 2) % 2:
+        body.append(["wcfg", "CfgA", "flag", "flag"])
+    main = {"name": "foo", "args": [_arg("s", "scalar"), _arg("r", "scalar"), _arg("flag", "bool"), _arg("x", "tensor", dims=["8"]), _arg("y", "tensor", dims=["8"])], "preds": [], "body": body}
+    return {"prec": "f32", "cfg": True, "callees": [sett], "main": main}
+
+
+TEMPLATES = [t_window_on_alloc, t_config_fields, t_control_divmod, t_window_of_alloc, t_else_then_more, t_dependent_alloc, t_rmw_prefix, t_triangular_alloc, t_reduce_beyond, t_config_chain, t_maybe_zero_bound, t_masked_callee, t_config_scalar]
 
 
 def templates():
